@@ -1,10 +1,16 @@
 #!/bin/bash
 # MANIFEST.setup_cmd: regenerate Gen/ from /repo, then build (offline) every Lean target a claimed check needs.
-set -e
+# One target that does not build must not take the others down: each check rebuilds and reports its own modules.
 DIR="$(cd "$(dirname "${BASH_SOURCE[0]}")/.." && pwd)"
 cd "$DIR"
 /venv/bin/python tools/translate.py all > /dev/null 2>&1 || true
 /venv/bin/python tools/mkroot.py 2>/dev/null || true
 mkdir -p lean/.lake
 cd lean
-flock .lake/verif.lock lake build $(cat ../tools/targets.txt)
+if ! flock .lake/verif.lock lake build $(cat ../tools/targets.txt); then
+  echo "setup: building all targets at once failed; building them one by one" >&2
+  for t in $(cat ../tools/targets.txt); do
+    flock .lake/verif.lock lake build "$t" > /dev/null 2>&1 || echo "setup: target $t does not build (its check will report it)" >&2
+  done
+fi
+exit 0
